@@ -66,6 +66,13 @@ FIRST_MISSED = {
     'C17-w3': 'environment names without cased characters',
     'C19-w1': 'first evaluation ended in a transient harness error (exit 2); the end-to-end family now loads the package once',
     'C20-w3': 'part A through legacy (DOSINI) packages with many stages',
+    'C01-x2': 'workflow folder-named (component called like a top-level folder, stage-qualified reference)',
+    'C01-x3': 'caught by C06 (the DSL 2.0 front-end dropped the reference); the controlled-runtime workflows are FlowIR documents',
+    'C04-x2': 'first evaluation ended in a harness error while the runner was being edited; caught on re-evaluation',
+    'C04-x3': 'caught by C08 after configure_platform() and implicit-platform queries joined its alphabet, not by C04',
+    'C10-x1': 'family whitespace (interpreter consumers, runs of blanks / TAB / LF)', 'C10-x3': 'family relative-declared (producer named through a variable)',
+    'C16-x1': 'stream files whose modification times are not in index order', 'C16-x3': 'base mentions (a reference mentioned several times)',
+    'C20-x2': 'legacy status sections that also name an executable',
     'C19-u1': 'family backendvar + process histories', 'C19-u2': 'families rewrite (same directory) and history (same process)',
 }
 rows = []
